@@ -251,6 +251,38 @@ func rtmpReadFaults(s Session, segs [][]int) (cnt counts, err error) {
 				return cnt, e
 			}
 		}
+		// (3) a transient fault: one Read fails after k bytes, the transport delivers the rest afterwards
+		// (a deadline that was extended, an interrupted call): the operation in progress still has to report it
+		for k := 0; k < len(wire); k++ {
+			if len(wire) > 3000 && k%7 != 0 && !isEnd[k] {
+				continue
+			}
+			sent := xport.NewSentinel(k, fmt.Sprintf("transient read fault after %d bytes", k))
+			er := &xport.ErrReader{R: bytes.NewReader(wire), FailAt: -1, AfterBytes: k, Err: sent, Once: true}
+			var r io.Reader = er
+			if seg != nil {
+				r = &xport.SegReader{R: er, Sched: seg}
+			}
+			p := rtmp.NewProtocol(xport.RW{Reader: r, Writer: io.Discard})
+			got, e := readUntilError(p, len(msgs))
+			if !er.Failed {
+				continue
+			}
+			cnt.faults++
+			if !isEnd[k] {
+				cnt.inside++
+			}
+			what := fmt.Sprintf("stream of %d bytes, one read fails after %d bytes and the transport recovers (seg %v)", len(wire), k, seg)
+			if e == nil {
+				return cnt, fmt.Errorf("%s: no read returned an error (%d messages returned)", what, len(got))
+			}
+			if oe.Cause(e) != sent {
+				return cnt, fmt.Errorf("%s: error %q has root cause %v (%T), want the injected error", what, e, oe.Cause(e), oe.Cause(e))
+			}
+			if e := checkPrefix(got, msgs, ends, k, what); e != nil {
+				return cnt, e
+			}
+		}
 	}
 	return cnt, nil
 }
@@ -327,9 +359,10 @@ func rtmpWriteFaults(s Session) (cnt counts, err error) {
 		}
 		return n%4096 <= 2 || n%4096 >= 4094
 	}
+	stride := max(5, len(wire)/2000)
 	for n := 0; n < len(wire); n++ {
-		if len(wire) > 4096 && n%5 != 0 && !near(n) {
-			continue // large sessions: every 5th byte count plus all boundaries
+		if len(wire) > 4096 && n%stride != 0 && !near(n) {
+			continue // large sessions: every 5th (or 1/2000th) byte count plus all boundaries
 		}
 		sent := xport.NewSentinel(n, fmt.Sprintf("injected write fault after %d bytes", n))
 		if e := run(&xport.ErrWriter{AfterBytes: n, FailAt: -1, Err: sent}, sent, fmt.Sprintf("transport accepts %d of %d bytes", n, len(wire))); e != nil && e != errNotReached {
@@ -833,6 +866,12 @@ func TestRtmpWriteFaults(t *testing.T) {
 			if rapid.Bool().Draw(t, "bigtail") {
 				s.Msgs = append(s.Msgs, M{Type: 8, Sid: 1, Ts: 78, Len: 10, Fill: 6})
 			}
+		}
+		if rapid.IntRange(0, 5).Draw(t, "tinybig") == 0 {
+			// a long message in tiny chunks: continuation headers (1 byte, or 5 with an extended timestamp) land on
+			// every position of the writer's buffer, also exactly where it has to be flushed
+			s.Msgs = append(s.Msgs, M{Scs: uint32(rapid.IntRange(1, 9).Draw(t, "tinyscs"))})
+			s.Msgs = append(s.Msgs, M{Type: 8, Sid: 1, Ts: rapid.SampledFrom([]uint32{5, 0xFFFFFF, 0x1000000, 1<<31 - 1}).Draw(t, "tinyts"), Len: rapid.IntRange(2500, 6000).Draw(t, "tinylen"), Fill: 9})
 		}
 		var cnt counts
 		err := ev.Try(func() error {
